@@ -13,6 +13,16 @@ from vcommon import REPO, VERIF, MachineryError, scratch_dir
 
 _cache = {}
 
+# The test files whose executions are recorded: the pure unit tests of the datastore, the codecs, the framers and the payload helpers.
+# The client / server test files are left out on purpose: they start reactor threads and touch real sockets (which can block for the
+# per-test time-out when several checks run at the same time) and everything they execute of the recorded classes is mocked anyway.
+RECORDED_FILES = ["test/test_datastore.py", "test/test_server_context.py", "test/test_payload.py", "test/test_framers.py",
+                  "test/test_transaction.py", "test/test_factory.py", "test/test_pdu.py", "test/test_all_messages.py",
+                  "test/test_bit_read_messages.py", "test/test_bit_write_messages.py", "test/test_register_read_messages.py",
+                  "test/test_register_write_messages.py", "test/test_diag_messages.py", "test/test_other_messages.py",
+                  "test/test_file_message.py", "test/test_mei_messages.py", "test/test_events.py", "test/test_device.py",
+                  "test/test_utilities.py"]
+
 
 def record():
     if "d" in _cache:
@@ -24,9 +34,10 @@ def record():
                 "PYTHONPATH": os.path.join(VERIF, "harness") + os.pathsep + env.get("PYTHONPATH", "")})
     empty = {"blocks": [], "pdu": [], "framing": [], "build": [], "payload": [], "dropped": {}}
     try:
+        files = [f for f in RECORDED_FILES if os.path.exists(os.path.join(REPO, f))]
         p = subprocess.run(["/venv/bin/python", "-m", "pytest", "-q", "-p", "no:cacheprovider", "-p", "repotrace_plugin",
-                            "--timeout=900", "--continue-on-collection-errors", "test"],
-                           cwd=REPO, env=env, stdout=subprocess.PIPE, stderr=subprocess.STDOUT, text=True, timeout=1500)
+                            "--timeout=60", "--continue-on-collection-errors"] + files,
+                           cwd=REPO, env=env, stdout=subprocess.PIPE, stderr=subprocess.STDOUT, text=True, timeout=240)
         if not os.path.exists(out):
             # the test session did not finish (e.g. collection crashed on this tree): the recorded traces are an addition to the
             # driven ones, so their absence is reported in the evidence, not raised
@@ -37,7 +48,7 @@ def record():
             d = json.load(f)
         d["pytest_tail"] = p.stdout.strip().splitlines()[-1:] if p.stdout.strip() else []
     except subprocess.TimeoutExpired:
-        empty["error"] = "the repository's tests did not finish within 1500 s"
+        empty["error"] = "the repository's tests did not finish within 240 s"
         _cache["d"] = empty
         return empty
     finally:
